@@ -61,6 +61,9 @@ def divergent_to_trace(divergent):
     return ev
 
 
+_NOT_JUDGED = []
+
+
 def validate_events(run, events, label, engine):
     """Validate an event list with Trace_AllocAbs; every rejection is a violation. Returns #rejections."""
     rej = 0
@@ -83,6 +86,7 @@ def validate_events(run, events, label, engine):
             # the linearization search of a free-running trace can take long on a loaded machine: such a trace is not judged
             # (and said so in the evidence), the other stress traces and the two replay legs still are
             run.note("stress_trace_not_judged_timeout_%s" % label, len(chunk))
+            _NOT_JUDGED.append(label)
             log("[C19] stress trace %s: validation timed out, not judged" % label)
             return rej
         run.cov["states"] += info["distinct"]
@@ -251,6 +255,8 @@ def run(tier, seed):
     import concurrent.futures as cf
     with cf.ThreadPoolExecutor(max_workers=8) as ex:
         list(ex.map(lambda t: validate_events(run, t[0], t[1], "alloc-stress"), traces))
+    if len(_NOT_JUDGED) > len(traces) // 3:
+        raise vlib.ToolError("stress leg: %d of %d traces could not be validated in time (machine too loaded?)" % (len(_NOT_JUDGED), len(traces)))
 
     # ---- binding is not vacuous: a corrupted trace must be rejected
     p = vlib.run_tool([vlib.rv("rv-alloc"), "stress", "2", "6", "3", "4096"], timeout=120, env={"VERIF_SEED": "7"})
